@@ -1751,6 +1751,8 @@ func TestC16_MaskedFields(t *testing.T) {
 
 type c17Matcher struct {
 	FailPath string     `json:"fail_path,omitempty"` // the path that must be named (default: the matcher's first path)
+	// AfterFailedSibling: satisfiable; the matcher before it failed on its first path and also lists this matcher's path
+	AfterFailedSibling bool `json:"after_a_failed_matcher_that_lists_the_same_path,omitempty"`
 	// DependsOnEarlier: this matcher fails only because an earlier, satisfiable matcher replaced the value it addresses
 	DependsOnEarlier bool `json:"fails_because_of_earlier_matcher,omitempty"`
 	Spec    MatcherSpec `json:"matcher"`
@@ -1942,6 +1944,16 @@ func genC17(t *rapid.T) c17Case {
 			m.DependsOnEarlier = true
 			m.Comps = comps
 			used = append(used, comps)
+		case kind == 9 && (node.K == "obj" || node.K == "arr" || node.K == "num" || node.K == "bool") && !(yamlDoc && node.K == "num"):
+			// a matcher lists a path that does not exist FIRST and this existing path second: it fails as a whole, and what it
+			// would have done to the second path never happens - the next matcher (satisfiable on the document) sees the value
+			first := c17Matcher{Spec: MatcherSpec{Kind: rapid.SampledFrom([]string{"any", "type"}).Draw(t, "firstfails"), Paths: []string{missing(i), path}, TypeName: typeMatcherName(node)}, Failing: true}
+			first.Name = map[string]string{"any": "Any", "type": "Type"}[first.Spec.Kind]
+			c.Matchers = append(c.Matchers, first)
+			m.Spec = MatcherSpec{Kind: "type", Paths: []string{path}, TypeName: typeMatcherName(node)}
+			m.Comps = comps
+			m.AfterFailedSibling = true
+			used = append(used, comps)
 		case kind < 6: // custom error
 			m.Spec = MatcherSpec{Kind: "custom", Paths: []string{path}, ReturnErr: "custom callback says no", ReturnInput: rapid.Bool().Draw(t, "returninput")}
 			m.Failing = true
@@ -2068,6 +2080,22 @@ func checkC17(c c17Case) error {
 				return fmt.Errorf("the failure does not name %s; error text %q", want, clip(r.Errors[0]))
 			}
 		}
+		// ... and only those: a matcher that is satisfiable on the document (as the matchers before it left it) did not fail
+		for i, m := range c.Matchers {
+			if m.Failing || m.Ignored || len(m.Spec.Paths) != 1 {
+				continue
+			}
+			named := fmt.Sprintf(`match.%s("%s")`, m.Name, m.Spec.Paths[0])
+			dup := false
+			for j, o := range c.Matchers {
+				if j != i && o.Failing && o.Name == m.Name && (o.Spec.Paths[0] == m.Spec.Paths[0] || o.FailPath == m.Spec.Paths[0]) {
+					dup = true // (the same Type twice: the text names the failing twin)
+				}
+			}
+			if !dup && strings.Contains(r.Errors[0], named) {
+				return fmt.Errorf("the failure names %s, which is satisfiable on this document; error text %q", named, clip(r.Errors[0]))
+			}
+		}
 		if d := diffDirs(before, after, true); d != "" {
 			return fmt.Errorf("a call with failing matchers wrote (mode %s): %s", c.ModeKind, d)
 		}
@@ -2133,6 +2161,9 @@ func classifyC17(c c17Case) ([]string, bool) {
 			cls = append(cls, "tolerated_missing_"+m.Spec.Kind)
 		default:
 			sat++
+			if m.AfterFailedSibling {
+				cls = append(cls, "satisfiable_matcher_on_a_path_that_a_failed_matcher_lists_second")
+			}
 		}
 	}
 	nt := (failing >= 1 && sat >= 1) || c.ModeKind == "update_existing" || ignored > 0
